@@ -274,6 +274,28 @@ def property_setter_stage(rep, work, rp, do_selftest) -> dict:
     traces = E.pmap(PD.run_monitored, rjobs, procs=16, chunk=16)
     kept = [(j, t) for j, t in zip(rjobs, traces) if t is not None]
     recs = [{"id": j[0], "out": t["steps"][0]["out"], "lost": t["lost"]} for j, t in kept]
+    # reader level: one accepted in-domain assignment per catalogued property, the saved file read as written and respelled
+    sjobs = []
+    if not rp:
+        seen = set()
+        sts, acts, _r = c09.explore(work, "preader", 1, 1, list(range(1, len(pcat) + 1)))
+        for i, s_ in enumerate(sts):
+            sc = [a for a in c09.scenario(acts, s_) if a["op"] != "SaveReopen"]
+            if len(sc) != 1 or sc[0]["op"] != "Set" or sc[0]["v"]["cls"] != "in":
+                continue
+            kn = knames[s_["k"] - 1]
+            key = (kn, sc[0]["p"], sc[0]["v"]["anchor"])
+            if key in seen or sc[0]["v"]["delta"] != 0:
+                continue
+            seen.add(key)
+            K = PD.RT["kinds"][kn]
+            sjobs.append(("preader:%d" % i, kn, K["deck"], K["path"], sc))
+    elif rp.get("reader"):
+        sjobs = [tuple(rp["job"])]
+        rjobs, kept, recs = [], [], []
+    rres = [(j, r) for j, r in zip(sjobs, E.pmap(PD.run_respelled, sjobs, procs=16, chunk=16)) if r is not None]
+    recs += [{"id": r["id"], "out": r["out"], "lost": r["lost"]} for _, r in rres]
+    readers = {r["id"]: (j, r) for j, r in rres}
     if do_selftest:
         k0 = next(i for i, r in enumerate(recs) if r["out"] in ("ValueError", "TypeError") and not r["lost"])
         bad0, _, _ = E.validate("PropRefusal", {"recs": [dict(recs[k0], id="selftest", lost=["val@x"]), recs[k0]]}, work=work, name="prop_selftest")
@@ -284,6 +306,13 @@ def property_setter_stage(rep, work, rp, do_selftest) -> dict:
     bad, summ, _ = E.validate("PropRefusal", {"recs": recs}, work=work, name="prop_obs", heap="4g")
     byid = {j[0]: (j, t) for j, t in kept}
     for v in bad:
+        if v["id"] in readers:
+            j, r = readers[v["id"]]
+            pr = PD.RT["kinds"][j[1]]["props"][j[4][-1]["p"] - 1]["p"]
+            rep.reject("RespelledFormsReadable@%s.%s" % (j[1], pr), {"module": "PropRefusal", "reader": True, "job": list(j), "lost": r["lost"]},
+                       "%s: after %s.%s was assigned and the deck saved, the file respelled as another producer spells it (lower-case hex "
+                       "colours, true / false booleans) reads %s differently" % (j[1], j[1], pr, r["lost"][:4]))
+            continue
         j, t = byid[v["id"]]
         last = j[4][-1]
         pr = PD.RT["kinds"][j[1]]["props"][last["p"] - 1]["p"]
@@ -294,7 +323,10 @@ def property_setter_stage(rep, work, rp, do_selftest) -> dict:
                                                                    t["steps"][0]["out"], t["lost"][:4]))
     if not rp and summ["refused"] < 500:
         raise E.MachineryError("vacuous: only %d refused property assignments observed" % summ["refused"])
-    return {"candidates": len(rjobs), "judged": len(recs), "refused": summ["refused"], "rejected": summ["rejected"]}
+    if not rp and summ["respelled"] < 20:
+        raise E.MachineryError("vacuous: only %d respelled readings observed" % summ["respelled"])
+    return {"candidates": len(rjobs), "judged": len(recs), "refused": summ["refused"], "rejected": summ["rejected"],
+            "respelled_files_read": summ["respelled"], "respelled_attributes": sum(r["n"] for _, r in rres)}
 
 
 def selftest(work, pairs, W, WM, R, types_file, consts):
